@@ -7,56 +7,78 @@ import Mathlib.Analysis.InnerProductSpace.Symmetric
 import Mathlib.LinearAlgebra.FiniteDimensional.Lemmas
 /-
   C12 — conjugate gradient produces the Krylov-optimal iterate at every step.
-  All theorems are about `C12.init / update_ / update / done / run` of `Model/C12.lean`, the
-  line-by-line transcription of `sigpy.alg.ConjugateGradient` that the driver executes over exact
-  Gaussian rationals and the correspondence check compares with the real class after every update.
+  All theorems are about `C12.init / update_ / update / done / run` of `Model/C12.lean`, which ARE
+  `Gen.C12.init / update_ / update / done`: the statement-by-statement translation of
+  `sigpy.alg.ConjugateGradient.__init__/_update/_done` (+ `Alg.__init__`, `Alg.update`) that
+  harness/translate/gen_c12.py regenerates from the source on every check.  The driver executes the same
+  definitions over exact Gaussian rationals and the correspondence check compares them with the real
+  class after every update.
 -/
 namespace SigpyVerif.C12
 
 section generic
 variable {V S : Type} (o : Ops V S) (A : V → V) (P : Option (V → V)) (b x : V) (M : Int)
 
+/-- the model's machine is, by definition, the generated one -/
+theorem model_is_generated (tol : S) (s : State V S) :
+    init o A P b x M = Gen.C12.init o A P b x M ∧ update_ o A P M s = Gen.C12.update_ o A P M s ∧
+      update o A P M s = Gen.C12.update o A P M s ∧ done o M tol s = Gen.C12.done o M tol s :=
+  ⟨rfl, rfl, rfl, rfl⟩
+
+/-- `Alg.update` is `_update` followed by `iter += 1` -/
+theorem update_eq (s : State V S) :
+    update o A P M s = { update_ o A P M s with iter := (update_ o A P M s).iter + 1 } := rfl
+
+/-- `_update` never touches the counter, whatever branch it takes -/
+theorem update_keeps_iter (s : State V S) : (update_ o A P M s).iter = s.iter := by
+  cases P <;> simp only [update_, Gen.C12.update_] <;> split_ifs <;> rfl
+
 /-- `update()` advances the counter by exactly one, whatever branch `_update` takes
     (breakdown `return`, skipped residual update, full update). -/
 theorem update_iter (s : State V S) : (update o A P M s).iter = s.iter + 1 := by
-  simp only [update, update_]
-  split_ifs <;> rfl
+  rw [update_eq]; simp only [update_keeps_iter]
 
 /-- after `k` calls of `update()` the counter is `k`. -/
 theorem iter_counts_updates (k : Nat) : (run o A P b x M k).iter = k := by
   induction k with
-  | zero => rfl
+  | zero => cases P <;> simp only [run, init, Gen.C12.init] <;> split_ifs <;> rfl
   | succ k ih => simp only [run, update_iter, ih]; push_cast; ring
 
 theorem update_alias (s : State V S) : (update o A P M s).alias = s.alias := by
-  simp only [update, update_]
-  split_ifs <;> rfl
+  rw [update_eq]
+  cases P <;> simp only [update_, Gen.C12.update_] <;> split_ifs <;> rfl
 
 theorem run_alias (k : Nat) : (run o A P b x M k).alias = !decide (M > 1) := by
   induction k with
-  | zero => rfl
+  | zero => cases P <;> simp only [run, init, Gen.C12.init] <;> split_ifs with h <;> simp [h]
   | succ k ih => simp only [run, update_alias, ih]
 
-/-- `self.p` is the array `z` (no private copy) only when `max_iter <= 1`, and then the branch of
-    `_update` that mutates `r` and `p` in place (`iter < max_iter - 1`) is never taken: the aliasing
-    is unobservable, which is why the model may keep `p` and `r` as separate values. -/
+/-- `self.p` is (or may be) the array `self.r` — `__init__` made no private copy — only when
+    `max_iter <= 1`, and then the condition under which `_update` updates `self.r` or `self.p` IN PLACE
+    (`Gen.C12.updInplaceGuard`, collected by the translator from every in-place statement on these two
+    arrays) is false: the sharing is unobservable, which is why the machine may treat arrays as values. -/
 theorem alias_branch_unreachable (k : Nat) (h : (run o A P b x M k).alias = true) :
-    ¬ ((run o A P b x M k).iter < M - 1) := by
+    Gen.C12.updInplaceGuard M (run o A P b x M k).iter = false := by
   rw [run_alias] at h
   rw [iter_counts_updates]
   simp at h
+  simp only [Gen.C12.updInplaceGuard, decide_eq_false_iff_not]
   omega
+
+/-- `self.x` is the array the caller passed and no statement of `__init__` / `_update` rebinds it: the
+    caller's array holds the iterate (the code updates it in place). -/
+theorem x_is_callers_array : Gen.C12.initXIsCaller = true ∧ Gen.C12.updXIsCaller = true := ⟨rfl, rfl⟩
 
 theorem update_resid2 (s : State V S) (h : s.resid2 = s.rzold) :
     (update o A P M s).resid2 = (update o A P M s).rzold := by
-  simp only [update, update_]
-  split_ifs <;> simp [h]
+  rw [update_eq]
+  cases P <;> simp only [update_, Gen.C12.update_] <;> split_ifs <;> simp [h]
 
 /-- `resid` is always `rzold ** 0.5` (so `resid <= tol` tests the preconditioned residual norm). -/
 theorem resid2_eq_rzold (k : Nat) :
     (run o A P b x M k).resid2 = (run o A P b x M k).rzold := by
   induction k with
-  | zero => rfl
+  | zero => cases P <;> simp only [run, init, Gen.C12.init] <;> split_ifs <;> rfl
   | succ k ih => exact update_resid2 o A P M _ ih
 
 /-- Non-positive curvature: if `p^H A p <= 0` the update leaves `x`, `r`, `p`, `rzold` untouched,
@@ -65,19 +87,18 @@ theorem cg_breakdown (s : State V S) (tol : S) (h : o.nonpos (o.rdot s.p (A s.p)
     let s' := update o A P M s
     s'.x = s.x ∧ s'.r = s.r ∧ s'.p = s.p ∧ s'.rzold = s.rzold ∧ s'.npd = true ∧
       s'.iter = s.iter + 1 ∧ done o M tol s' = true := by
-  simp [update, update_, h, done]
+  simp [update, Gen.C12.update, Gen.C12.update_, h, done, Gen.C12.done]
 
 /-- the flag, once set, stays set -/
 theorem npd_sticky (s : State V S) (h : s.npd = true) : (update o A P M s).npd = true := by
-  simp only [update, update_]
-  split_ifs <;> simp [h]
+  rw [update_eq]
+  cases P <;> simp only [update_, Gen.C12.update_] <;> split_ifs <;> simp [h]
 
 /-- `x` after an update never depends on whether the residual update is skipped: -/
 theorem update_x (M' : Int) (s t : State V S) (hx : s.x = t.x) (hp : s.p = t.p) (hz : s.rzold = t.rzold) :
     (update o A P M s).x = (update o A P M' t).x := by
-  simp only [update, update_]
-  rw [hp, hx, hz]
-  split_ifs <;> rfl
+  rw [update_eq, update_eq]
+  cases P <;> simp only [update_, Gen.C12.update_] <;> rw [hp, hx, hz] <;> split_ifs <;> rfl
 
 /-- states that agree on everything the code reads (all fields but the `alias` marker) -/
 def Sim (s t : State V S) : Prop :=
@@ -87,15 +108,15 @@ theorem sim_update (M' : Int) (s t : State V S) (h : Sim s t) (hM : M ≤ M') (h
     Sim (update o A P M s) (update o A P M' t) := by
   obtain ⟨h1, h2, h3, h4, h5, h6, h7⟩ := h
   have hi' : s.iter < M' - 1 := by omega
-  simp only [Sim, update, update_]
-  rw [← h1, ← h2, ← h3, ← h4, ← h5, ← h6, ← h7]
-  simp only [hi, hi', if_true]
-  split_ifs <;> simp
+  rw [update_eq, update_eq]
+  cases P <;> simp only [Sim, update_, Gen.C12.update_] <;> rw [← h1, ← h2, ← h3, ← h4, ← h5, ← h6, ← h7] <;>
+    simp only [hi, hi', if_true] <;> split_ifs <;> simp
 
 theorem sim_run (M' : Int) (hM : M ≤ M') (k : Nat) (hk : (k : Int) ≤ M - 1) :
     Sim (run o A P b x M k) (run o A P b x M' k) := by
   induction k with
-  | zero => simp [Sim, run, init]
+  | zero =>
+    cases P <;> simp only [Sim, run, init, Gen.C12.init] <;> split_ifs <;> simp
   | succ k ih =>
     have := ih (by push_cast at hk; omega)
     simp only [run]
@@ -109,7 +130,7 @@ theorem sim_run (M' : Int) (hM : M ≤ M') (k : Nat) (hk : (k : Int) ≤ M - 1) 
 theorem cg_x_maxiter_irrelevant (M' : Int) (hM : M ≤ M') (k : Nat) (hk : (k : Int) ≤ M) :
     (run o A P b x M k).x = (run o A P b x M' k).x := by
   cases k with
-  | zero => rfl
+  | zero => cases P <;> simp only [run, init, Gen.C12.init] <;> split_ifs <;> rfl
   | succ k =>
     have h := sim_run o A P b x M M' hM k (by push_cast at hk; omega)
     simp only [run]
@@ -169,7 +190,8 @@ noncomputable def pAp (k : ℕ) : ℝ := re ⟪(st A P b x0 M k).p, A (st A P b 
 theorem st_zero : st A P b x0 M 0 =
     { x := x0, r := b - A x0, p := P (b - A x0), rzold := re ⟪b - A x0, P (b - A x0)⟫,
       resid2 := re ⟪b - A x0, P (b - A x0)⟫, npd := false, iter := 0, «alias» := !decide (M > 1) } := by
-  simp [st, run, init, ipOps, precond]
+  simp only [st, run, init, Gen.C12.init, ipOps]
+  split_ifs with h <;> simp [h]
 
 /-- a full (non-breakdown, non-final) update from any state, in formulas -/
 theorem update_full (s : State E ℝ) (hk : s.iter < M - 1) (hpos : 0 < re ⟪s.p, A s.p⟫) :
@@ -181,7 +203,7 @@ theorem update_full (s : State E ℝ) (hk : s.iter < M - 1) (hpos : 0 < re ⟪s.
       (((update (ipOps 𝕜) (⇑A) (some ⇑P) M s).rzold / s.rzold : ℝ) : 𝕜) • s.p
         + P (update (ipOps 𝕜) (⇑A) (some ⇑P) M s).r := by
   have hnp : ¬ (re ⟪s.p, A s.p⟫ ≤ 0) := not_le.mpr hpos
-  simp [update, update_, ipOps, precond, hk, hnp]
+  simp [update, Gen.C12.update, Gen.C12.update_, ipOps, hk, hnp]
 
 /-- a full (non-breakdown, non-final) update, in formulas -/
 theorem st_succ (k : ℕ) (hk : (k : ℤ) < M - 1) (hpos : 0 < pAp A P b x0 M k) :
@@ -560,18 +582,18 @@ theorem update_rz (s : State E ℝ) (h : s.rzold = re ⟪s.r, P s.r⟫) :
     (update (ipOps 𝕜) (⇑A) (some ⇑P) M s).rzold =
       re ⟪(update (ipOps 𝕜) (⇑A) (some ⇑P) M s).r, P (update (ipOps 𝕜) (⇑A) (some ⇑P) M s).r⟫ := by
   by_cases h1 : re ⟪s.p, A s.p⟫ ≤ 0
-  · simp [update, update_, ipOps, h1, h]
+  · simp [update, Gen.C12.update, Gen.C12.update_, ipOps, h1, h]
   · by_cases h2 : s.iter < M - 1
-    · simp [update, update_, ipOps, precond, h1, h2]
-    · simp [update, update_, ipOps, h1, h2, h]
+    · simp [update, Gen.C12.update, Gen.C12.update_, ipOps, h1, h2]
+    · simp [update, Gen.C12.update, Gen.C12.update_, ipOps, h1, h2, h]
 
 theorem update_x_rz0 (Po : Option (E → E)) (s : State E ℝ) (h0 : s.rzold = 0) :
     (update (ipOps 𝕜) (⇑A) Po M s).x = s.x := by
   by_cases h1 : re ⟪s.p, A s.p⟫ ≤ 0
-  · simp [update, update_, ipOps, h1]
+  · simp [update, Gen.C12.update, Gen.C12.update_, ipOps, h1]
   · by_cases h2 : s.iter < M - 1
-    · simp [update, update_, ipOps, h1, h2, h0]
-    · simp [update, update_, ipOps, h1, h2, h0]
+    · cases Po <;> simp [update, Gen.C12.update, Gen.C12.update_, ipOps, h1, h2, h0]
+    · simp [update, Gen.C12.update, Gen.C12.update_, ipOps, h1, h2, h0]
 
 /-- `rzold = re ⟪r, P r⟫` at all times (breakdown and skipped updates included) -/
 theorem rz_always (k : ℕ) : ρ[k] = re ⟪R[k], P R[k]⟫ := by
